@@ -232,6 +232,9 @@ func driverSource(bc *BatchCheck, l *prog.Loaded, caseID string, outs map[string
 					continue
 				}
 				rc, ok := refSQLType(f.Type(), enums, unions)
+				if n, isN := types.Unalias(f.Type()).(*types.Named); isN && unions[n] != nil {
+					continue // a bare union column has no defined Go encoding (sqlcrud refuses it)
+				}
 				if ok && rc.kind == "json" && strings.ToLower(f.Name()) != "id" {
 					fmt.Fprintf(&b, "\t\t%q: %s,\n", snakePlural(sd.named.Obj().Name())+"."+f.Name(), tx(f.Type()))
 				}
